@@ -51,6 +51,7 @@ def run(ctx):
     # no header byte of a constructed value is left as the caller's buffer had it
     from .C02 import header_coverage
     header_coverage(ctx, s)
+    layout.tag_count_agreement(ctx, s)
     # the refusing conversions are what the layout writers use: every to_ne_bytes that feeds the output of a
     # constructor takes a value produced by to_u16/to_u32 or a proven-narrow cast
     for name in ("pocket_types::json::to_u16", "pocket_types::json::to_u32"):
